@@ -42,6 +42,21 @@ def _lib(kind, path, **kw):
     return lib
 
 
+_M32 = []
+
+
+def _mol32():
+    if not _M32:
+        import molli as ml
+        import numpy as np
+
+        class Molecule32(ml.Molecule, coords_dtype=np.float32):
+            pass
+
+        _M32.append(Molecule32)
+    return _M32[0]
+
+
 def check(recipe) -> list[Fail]:
     from molli.storage.ukvfile import UKVFile
 
@@ -51,10 +66,14 @@ def check(recipe) -> list[Fail]:
     fails: list[Fail] = []
     build = chem.build_molecule if kind == "mol" else chem.build_ensemble
     objs = [build(r) for r in recipe["objs"]]
+    lib_cls = "Molecule" if kind == "mol" else "ConformerEnsemble"  # what the library promises to return
+    if recipe.get("f32cls") and kind == "mol":
+        # a Molecule subclass declared through the public __init_subclass__ hook (coords_dtype=float32)
+        objs = [_mol32()(o) for o in objs]
     keys = recipe["keys"][: len(objs)]
     if len(set(keys)) != len(keys) or len(keys) != len(objs):
         raise HarnessError("keys must be unique")
-    expected = [chem.snapshot(o, attrib_f32=True, f32=True) for o in objs]
+    expected = [dict(chem.snapshot(o, attrib_f32=True, f32=True), cls=lib_cls) for o in objs]
     path = _path("mlib" if kind == "mol" else "clib")
     try:
         pre = recipe.get("pre")
@@ -138,10 +157,46 @@ def check(recipe) -> list[Fail]:
                     pass
         # the source objects themselves must be untouched by serialisation
         for o, e in zip(objs, expected):
-            d = chem.snap_diff(e, chem.snapshot(o, attrib_f32=True, f32=True))
+            d = chem.snap_diff(e, dict(chem.snapshot(o, attrib_f32=True, f32=True), cls=lib_cls))
             if d is not None:
                 fails.append(Fail(f"{kind}_v{v}:source-mutated-by-store", d))
                 break
+        if recipe.get("rewrite") and not fails:
+            # the SAME python objects, edited in place, are stored again under new keys in a later session:
+            # the new keys must read back as the edited state, the old keys as the state at their own store time
+            import numpy as np
+
+            for j, o in enumerate(objs):
+                o.name = (o.name or "") + f"_m{j}"
+                o.charge = o.charge + 1
+                with np.errstate(all="ignore"):
+                    o.coords = np.asarray(o.coords) * 0.5 + 1.25
+                    o.atomic_charges = np.asarray(o.atomic_charges) + 0.5
+                    if kind == "ens":
+                        o.weights = np.asarray(o.weights) + 1.0
+                if o.n_atoms:
+                    o.atoms[0].label = "MUT"
+                if v == 2:
+                    o.attrib["rewritten"] = j
+            keys2 = [k[:200] + "#2" for k in keys]
+            expected2 = [dict(chem.snapshot(o, attrib_f32=True, f32=True), cls=lib_cls) for o in objs]
+            try:
+                with lib.writing():
+                    for k, o in zip(keys2, objs):
+                        lib[k] = o
+            except Exception as e:
+                from vf.core import exc_sig
+                fails.append(Fail(f"{kind}_v{v}:cannot-store-again:{exc_sig(e) or type(e).__name__}", f"{e!r}"))
+                return fails
+            keys, expected = keys + keys2, expected + expected2
+            with lib.reading():
+                read_all(lib, "same handle, after edited objects were stored again")
+            if not fails:
+                lib4 = _lib(kind, path)
+                with lib4.reading():
+                    read_all(lib4, "new handle, after edited objects were stored again")
+            for f in fails:
+                f.sig = f.sig.replace(f"{kind}_v{v}:", f"{kind}_v{v}:rewrite:", 1)
     finally:
         try:
             os.unlink(path)
@@ -169,7 +224,7 @@ def _enc_v1(kind, r, obj):
 
 
 def classify(recipe):
-    labels = [f"bufsize={BUFS[recipe['buf']]}", f"n_objs={len(recipe['objs'])}"] + ([f"overwrites_existing_{recipe['pre']}_library"] if recipe.get("pre") else [])
+    labels = [f"bufsize={BUFS[recipe['buf']]}", f"n_objs={len(recipe['objs'])}"] + (["edited_objects_stored_again"] if recipe.get("rewrite") else []) + (["float32_subclass"] if recipe.get("f32cls") else []) + ([f"overwrites_existing_{recipe['pre']}_library"] if recipe.get("pre") else [])
     nt = False
     for r in recipe["objs"]:
         na = len(r["atoms"])
@@ -214,6 +269,8 @@ def _case(kind, v, objs):
         "kind": st.just(kind), "v": st.just(v), "objs": st.lists(objs, min_size=1, max_size=3), "keys": _keys,
         "buf": st.integers(0, 3), "read_in_session": st.booleans(),
         "pre": st.sampled_from([None, None, None, "v1", "v2"]) if v == 2 else st.none(),
+        "rewrite": st.booleans(),
+        "f32cls": st.sampled_from([False, False, True]) if kind == "mol" else st.just(False),
     })
 
 
